@@ -537,9 +537,6 @@ Section Proofs.
       + specialize (H2 He). apply all_ctx_iff in H2. apply H2, Hx.
   Qed.
 
-  (* ----------------------------------------------------------------------------------------- *)
-  (* no duplicate instance (as lyd_validate_duplicates sees it) = the three RFC rules             *)
-  (* ----------------------------------------------------------------------------------------- *)
   Lemma pairwise_and {A} (r1 r2 : A -> A -> bool) l :
     pairwise r1 l = true -> pairwise r2 l = true -> pairwise (fun a b => r1 a b && r2 a b) l = true.
   Proof.
@@ -547,6 +544,503 @@ Section Proofs.
     rewrite !andb_true_iff, !forallb_forall. intros [A1 A2] [B1 B2]. split; [|apply IH; assumption].
     intros b Hb. rewrite (A1 b Hb), (B1 b Hb). reflexivity.
   Qed.
+
+  (* ----------------------------------------------------------------------------------------- *)
+  (* LYD_VALIDATE_MULTI_ERROR: the first logged error is the error of the first-error run          *)
+  (* ----------------------------------------------------------------------------------------- *)
+  Lemma first_err_app a b : first_err (a ++ b) = vand (first_err a) (first_err b).
+  Proof. destruct a; reflexivity. Qed.
+
+  Lemma first_err_flat_map {A} (g : A -> list verr) l : first_err (flat_map g l) = vall (fun x => first_err (g x)) l.
+  Proof. induction l as [|x l IH]; cbn [flat_map vall]; [reflexivity|]. rewrite first_err_app, IH. reflexivity. Qed.
+
+  Lemma vall_ext_in {A} (g g' : A -> vres) l : (forall x, In x l -> g x = g' x) -> vall g l = vall g' l.
+  Proof.
+    intro H. induction l as [|x l IH]; cbn [vall]; [reflexivity|]. rewrite (H x (or_introl eq_refl)), IH; [reflexivity|].
+    intros y Hy. apply H. right. exact Hy.
+  Qed.
+
+  Lemma first_err_elist r : first_err (elist r) = r.
+  Proof. destruct r; reflexivity. Qed.
+
+  Lemma sr_node_m_ok f t : first_err (sr_node_m vs f t) = sr_node vs f t.
+  Proof.
+    destruct t as [s ch|c m cs|c d ch]; cbn [sr_node_m sr_node]; try reflexivity.
+    destruct (kind vs s); try apply first_err_elist.
+    rewrite first_err_app, !first_err_elist. reflexivity.
+  Qed.
+
+  Lemma sr_choice_m_ok f t : first_err (sr_choice_m vs f t) = sr_choice vs f t.
+  Proof.
+    assert (G : first_err (sr_choice_m vs f t) = sr_choice vs f t /\
+                match t with
+                | TCase _ _ ch => forall t', In t' ch -> first_err (sr_choice_m vs f t') = sr_choice vs f t'
+                | _ => True
+                end); [|apply G].
+    induction t as [s ch IH|cid m cs IH|c d ch IH] using stree_ind'; rewrite Forall_forall in IH.
+    - split; [reflexivity|exact I].
+    - split; [|exact I]. cbn [sr_choice_m sr_choice]. rewrite first_err_app, first_err_elist. f_equal.
+      clear -IH. induction cs as [|c r IHr]; [reflexivity|].
+      destruct (sub_has_data f c).
+      + destruct c as [s ch|ci mi csi|ci di ch]; try reflexivity.
+        destruct (IH _ (or_introl eq_refl)) as [_ Hc].
+        rewrite first_err_app, !first_err_flat_map. f_equal; apply vall_ext_in; [exact Hc|intros x _; apply sr_node_m_ok].
+      + apply IHr. intros x Hx. apply IH. right. exact Hx.
+    - split; [reflexivity|]. intros t' Ht'. apply (IH t' Ht').
+  Qed.
+
+  Lemma schema_r_m_ok f l : first_err (schema_r_m vs f l) = schema_r vs f l.
+  Proof.
+    unfold schema_r_m, schema_r. rewrite first_err_app, !first_err_flat_map.
+    f_equal; apply vall_ext_in; intros x _; [apply sr_choice_m_ok|apply sr_node_m_ok].
+  Qed.
+
+  Lemma vf_m_ok t : first_err (vf_m vs t) = vf vs t.
+  Proof.
+    assert (G : first_err (vf_m vs t) = vf vs t /\
+                match t with
+                | TCase _ _ ch => forall t', In t' ch -> first_err (vf_m vs t') = vf vs t'
+                | _ => True
+                end); [|apply G].
+    induction t as [s ch IH|cid m cs IH|c d ch IH] using stree_ind'; rewrite Forall_forall in IH.
+    - split; [|exact I]. cbn [vf_m vf]. destruct (is_npc vs s); [|reflexivity].
+      rewrite first_err_app, schema_r_m_ok, first_err_flat_map. f_equal. apply vall_ext_in. intros x Hx. apply (IH x Hx).
+    - split; [|exact I]. cbn [vf_m vf]. rewrite first_err_flat_map. apply vall_ext_in. intros c Hc.
+      destruct c as [s ch|ci mi csi|ci [|] ch]; try reflexivity.
+      destruct (IH _ Hc) as [_ H]. rewrite first_err_flat_map. apply vall_ext_in. exact H.
+    - split; [reflexivity|]. intros t' Ht'. apply (IH t' Ht').
+  Qed.
+
+  Lemma visit_m_ok (rec : dnode -> vres) (recm : dnode -> list verr) : forall c virt,
+    (forall x, In x c -> first_err (recm x) = rec x) -> first_err (visit_m vs recm c virt) = visit vs rec c virt.
+  Proof.
+    induction c as [|x r IH]; intros virt H; cbn [visit_m visit].
+    - rewrite first_err_flat_map. apply vall_ext_in. intros t _. apply vf_m_ok.
+    - rewrite !first_err_app, first_err_flat_map, (H x (or_introl eq_refl)), IH; [|intros y Hy; apply H; right; exact Hy].
+      f_equal. apply vall_ext_in. intros t _. apply vf_m_ok.
+  Qed.
+
+  Lemma final_node_m_ok n : forall l, first_err (final_node_m vs l n) = final_node vs l n.
+  Proof.
+    induction n as [s v d m ch IH] using dnode_ind'. intro l. rewrite Forall_forall in IH. cbn [final_node_m final_node].
+    rewrite first_err_app, schema_r_m_ok. f_equal. apply visit_m_ok. intros x Hx. apply (IH x Hx).
+  Qed.
+
+  Lemma final_top_m_ok f : first_err (final_top_m vs f) = final_top vs f.
+  Proof.
+    unfold final_top_m, final_top. rewrite first_err_app, schema_r_m_ok. f_equal. apply visit_m_ok.
+    intros x _. apply final_node_m_ok.
+  Qed.
+
+  (* the first stage: the multi-error run computes the same tree when there is no error, and logs the error of the
+     first-error run first *)
+  Definition agree (r : rs vforest) (m : vforest * list verr) : Prop :=
+    match r with
+    | ROk f' => m = (f', [])
+    | RErr e => exists f' es, m = (f', e :: es)
+    end.
+
+  Lemma validate_cases_agree cs f : agree (validate_cases cs f) (validate_cases_m cs f).
+  Proof.
+    unfold validate_cases, validate_cases_m. destruct (cases_scan f cs None None) as [[[o|] [n|]]|e]; cbn [agree]; try reflexivity.
+    exists f, []. reflexivity.
+  Qed.
+
+  Lemma fold_agree (step : stree -> vforest -> rs vforest) (stepm : stree -> vforest -> vforest * list verr) l :
+    (forall c, In c l -> forall g, agree (step c g) (stepm c g)) ->
+    forall r m, agree r m ->
+    agree (fold_left (fun acc c => match acc with ROk g => step c g | e => e end) l r)
+          (fold_left (fun acc c => let '(g, e1) := acc in let '(g', e2) := stepm c g in (g', e1 ++ e2)) l m).
+  Proof.
+    induction l as [|c l IH]; intros H r m Ha; cbn [fold_left]; [exact Ha|].
+    apply IH; [intros x Hx; apply H; right; exact Hx|].
+    destruct r as [g|e]; cbn [agree] in Ha.
+    - subst m. pose proof (H c (or_introl eq_refl) g) as Hc. destruct (stepm c g) as [g' e2]. cbn [app].
+      destruct (step c g) as [g2|e]; cbn [agree] in *; [exact Hc|]. exact Hc.
+    - destruct Ha as [f' [es ->]]. destruct (stepm c f') as [g' e2]. cbn [agree]. exists g', (es ++ e2). reflexivity.
+  Qed.
+
+  Lemma vchoices_agree t : forall f, agree (vchoices t f) (vchoices_m t f).
+  Proof.
+    induction t as [s ch IH|cid m cs IH|c d ch IH] using stree_ind'; intro f; cbn [vchoices vchoices_m]; rewrite Forall_forall in IH.
+    - reflexivity.
+    - destruct f as [|x f'] eqn:Ef; [reflexivity|]. rewrite <- Ef.
+      pose proof (validate_cases_agree cs f) as Hv. destruct (validate_cases_m cs f) as [f1 es].
+      destruct (validate_cases cs f) as [f2|e]; cbn [agree] in Hv.
+      + injection Hv as -> ->. apply (fold_agree vchoices vchoices_m cs IH (ROk f2) (f2, [])). reflexivity.
+      + destruct Hv as [f3 [es' Hv]]. injection Hv as -> ->.
+        pose proof (fold_agree vchoices vchoices_m cs IH (RErr e) (f3, e :: es')) as Hf.
+        assert (Hx : fold_left (fun acc c => match acc with ROk g => vchoices c g | RErr _ => acc end) cs (RErr e) = RErr e).
+        { clear. induction cs; cbn [fold_left]; [reflexivity|assumption]. }
+        rewrite Hx in Hf. apply Hf. cbn [agree]. exists f3, es'. reflexivity.
+    - apply (fold_agree vchoices vchoices_m ch IH (ROk f) (f, [])). reflexivity.
+  Qed.
+
+  Lemma agree_pair_nil (r : rs vforest) res es : agree r (res, es) -> agree r (res, [] ++ es).
+  Proof. intro H. exact H. Qed.
+
+  Lemma vloop_agree l : forall fuel todo done last,
+    agree (vloop vs l fuel done todo last) (vloop_m vs l fuel done todo last).
+  Proof.
+    induction fuel as [|k IH]; intros todo done last.
+    - destruct todo; cbn [vloop vloop_m agree]; [reflexivity|]. eexists _, []. reflexivity.
+    - destruct todo as [|n r]; [reflexivity|]. cbn [vloop vloop_m].
+      destruct (negb (vn_new n || vn_dflt n)); [apply IH|].
+      cbv zeta.
+      match goal with |- agree (match ?T with pair _ _ => _ end) _ => destruct T as [[d1 r1] gone] end.
+      destruct gone; [apply IH|].
+      destruct (vn_new n && dup_of vs (rev d1 ++ r1) n).
+      + destruct (vn_dflt n && stale_case_dflt l (rev d1 ++ vn_clear_new n :: r1) n);
+          match goal with |- agree _ (match ?T with pair _ _ => _ end) => destruct T as [res es'] end;
+          cbn [agree app]; eexists _, _; reflexivity.
+      + destruct (vn_dflt n && stale_case_dflt l (rev d1 ++ vn_clear_new n :: r1) n).
+        * pose proof (IH r1 d1 (if has_default vs (vn_sid n) && negb (opt_is last (vn_sid n)) && vn_new n then Some (vn_sid n) else last)) as H.
+          destruct (vloop_m vs l k d1 r1 _) as [res es']. exact H.
+        * pose proof (IH r1 (vn_clear_new n :: d1) (if has_default vs (vn_sid n) && negb (opt_is last (vn_sid n)) && vn_new n then Some (vn_sid n) else last)) as H.
+          destruct (vloop_m vs l k (vn_clear_new n :: d1) r1 _) as [res es']. exact H.
+  Qed.
+
+  Lemma vlevel_agree l f : agree (vlevel vs l f) (vlevel_m vs l f).
+  Proof.
+    unfold vlevel, vlevel_m.
+    pose proof (fold_agree vchoices vchoices_m l (fun c _ g => vchoices_agree c g) (ROk f) (f, []) eq_refl) as H.
+    destruct (fold_left _ l (f, [])) as [f1 e1].
+    destruct (fold_left _ l (ROk f)) as [f2|e]; cbn [agree] in H.
+    - injection H as -> ->. pose proof (vloop_agree l (length f2) f2 [] None) as H2.
+      destruct (vloop_m vs l (length f2) [] f2 None) as [f3 e2]. exact H2.
+    - destruct H as [f3 [es H]]. injection H as -> ->. destruct (vloop_m vs l (length f3) [] f3 None) as [f4 e2].
+      cbn [agree app]. eexists _, _. reflexivity.
+  Qed.
+
+  Lemma vnew_agree : forall fuel l f, agree (vnew vs fuel l f) (vnew_m vs fuel l f).
+  Proof.
+    induction fuel as [|k IH]; intros l f; [cbn [vnew vnew_m agree]; eexists _, []; reflexivity|].
+    cbn [vnew vnew_m]. pose proof (vlevel_agree l f) as H. destruct (vlevel_m vs l f) as [f1 e1].
+    destruct (vlevel vs l f) as [f2|e]; cbn [agree] in H.
+    2:{ destruct H as [f3 [es H]]. injection H as -> ->. cbn [agree app]. eexists _, _. reflexivity. }
+    injection H as -> ->. cbn [app].
+    induction f2 as [|x r IHr]; cbn [rmap map flat_map agree]; [reflexivity|].
+    destruct x as [s v d w m ch]. pose proof (IH (st_children l s) ch) as Hx.
+    destruct (vnew_m vs k (st_children l s) ch) as [ch' ex]. destruct (vnew vs k (st_children l s) ch) as [ch2|e]; cbn [agree] in Hx.
+    - injection Hx as -> ->. cbn [fst snd app].
+      destruct (rmap _ r) as [r'|e]; cbn [agree] in IHr |- *.
+      + injection IHr as E1 E2. rewrite E1, E2. reflexivity.
+      + destruct IHr as [f' [es E]]. injection E as E1 E2. rewrite E2. eexists _, _. reflexivity.
+    - destruct Hx as [f' [es E]]. injection E as -> ->. cbn [fst snd app]. eexists _, _. reflexivity.
+  Qed.
+
+  (* lyd_validate_module with LYD_VALIDATE_MULTI_ERROR: the first error logged is the error of the run without the
+     option; in particular both runs accept or both reject *)
+  Theorem multi_first_error g : first_err (impl_validate_multi vs g) = impl_validate vs g.
+  Proof.
+    unfold impl_validate_multi, impl_validate. pose proof (vnew_agree (S (vfsize g)) (vs_tree vs) g) as H.
+    destruct (vnew_m vs (S (vfsize g)) (vs_tree vs) g) as [f' e1].
+    destruct (vnew vs (S (vfsize g)) (vs_tree vs) g) as [f2|e]; cbn [agree] in H.
+    - injection H as -> ->. cbn [app]. apply final_top_m_ok.
+    - destruct H as [f3 [es H]]. injection H as -> ->. reflexivity.
+  Qed.
+
+  (* ----------------------------------------------------------------------------------------- *)
+  (* histories: un-flagged nodes that were validated before, flagged nodes arbitrary (hist_ok)     *)
+  (* ----------------------------------------------------------------------------------------- *)
+  Lemma cases_scan_gen g : forall cs old nw,
+    cases_scan g cs old nw =
+    if ((length (filter (case_old g) cs) + b2n old <=? 1) && (length (filter (case_new g) cs) + b2n nw <=? 1))%nat
+    then ROk (match old with Some c => Some c | None => find (case_old g) cs end,
+              match nw with Some c => Some c | None => find (case_new g) cs end)
+    else RErr EDupCase.
+  Proof.
+    induction cs as [|c cs IH]; intros old nw; cbn [cases_scan filter find length].
+    - destruct old, nw; reflexivity.
+    - change (existsb (fun n => in_sub c n && vn_new n) g) with (case_new g c).
+      assert (Eold : case_old g c = existsb (in_sub c) g && negb (case_new g c)) by reflexivity.
+      destruct (case_new g c) eqn:En.
+      + assert (Eo : case_old g c = false) by (rewrite Eold; apply andb_false_r). rewrite Eo. cbn [length].
+        destruct nw as [c0|]; cbn [b2n].
+        * replace (S (length (filter (case_new g) cs)) + 1 <=? 1)%nat with false by (symmetry; apply Nat.leb_gt; lia).
+          rewrite andb_false_r. reflexivity.
+        * rewrite IH. cbn [b2n].
+          replace (S (length (filter (case_new g) cs)) + 0)%nat with (length (filter (case_new g) cs) + 1)%nat by lia. reflexivity.
+      + destruct (existsb (in_sub c) g) eqn:Ex; cbn [andb negb] in Eold; rewrite Eold; cbn [length].
+        * destruct old as [c0|]; cbn [b2n].
+          -- replace (S (length (filter (case_old g) cs)) + 1 <=? 1)%nat with false by (symmetry; apply Nat.leb_gt; lia).
+             reflexivity.
+          -- rewrite IH. cbn [b2n].
+             replace (S (length (filter (case_old g) cs)) + 0)%nat with (length (filter (case_old g) cs) + 1)%nat by lia. reflexivity.
+        * rewrite IH. reflexivity.
+  Qed.
+
+  Lemma filter_split_len {A} (p q r : A -> bool) l :
+    (forall x, p x = q x || r x) -> (forall x, q x && r x = false) ->
+    length (filter p l) = (length (filter q l) + length (filter r l))%nat.
+  Proof.
+    intros H1 H2. induction l as [|x l IH]; cbn [filter length]; [reflexivity|].
+    rewrite (H1 x). specialize (H2 x). destruct (q x), (r x); cbn [orb length] in *; try discriminate; lia.
+  Qed.
+
+  Lemma find_none_all {A} (p : A -> bool) l : (forall x, In x l -> p x = false) -> find p l = None.
+  Proof.
+    intro H. induction l as [|x l IH]; cbn [find]; [reflexivity|]. rewrite (H x (or_introl eq_refl)).
+    apply IH. intros y Hy. apply H. right. exact Hy.
+  Qed.
+
+  Lemma validate_cases_hist g cs :
+    (length (filter (case_old g) cs) <=? 1)%nat = true ->
+    match filter (case_new g) cs, filter (case_old g) cs with _ :: _, _ :: _ => false | _, _ => true end = true ->
+    validate_cases cs g =
+    if (length (filter (sub_has_data (map erase g)) cs) <=? 1)%nat then ROk g else RErr EDupCase.
+  Proof.
+    intros H1 H2. unfold validate_cases. rewrite cases_scan_gen. cbn [b2n]. rewrite !Nat.add_0_r.
+    rewrite (filter_ext (sub_has_data (map erase g)) (fun c => existsb (in_sub c) g)) by (intro c; apply sub_has_data_erase).
+    rewrite (filter_split_len (fun c => existsb (in_sub c) g) (case_old g) (case_new g)).
+    2:{ intro c. unfold case_old. destruct (existsb (in_sub c) g) eqn:E, (case_new g c) eqn:E2; try reflexivity.
+        unfold case_new in E2. apply existsb_exists in E2. destruct E2 as [n [Hn E2]]. apply andb_true_iff in E2.
+        assert (existsb (in_sub c) g = true) by (apply existsb_exists; exists n; split; [exact Hn|apply E2]). congruence. }
+    2:{ intro c. unfold case_old. destruct (case_new g c), (existsb (in_sub c) g); reflexivity. }
+    rewrite H1. cbn [andb].
+    destruct (filter (case_new g) cs) as [|n1 rn] eqn:En.
+    - cbn [length]. rewrite Nat.add_0_r, H1. cbn [Nat.leb].
+      rewrite (find_none_all (case_new g) cs); [destruct (find (case_old g) cs); reflexivity|].
+      intros x Hx. destruct (case_new g x) eqn:E; [|reflexivity].
+      assert (In x (filter (case_new g) cs)) by (apply filter_In; split; assumption). rewrite En in H. destruct H.
+    - destruct (filter (case_old g) cs) as [|o1 ro] eqn:Eo; [|discriminate]. cbn [length Nat.add].
+      assert (Hf : find (case_old g) cs = None).
+      { apply find_none_all. intros x Hx. destruct (case_old g x) eqn:E; [|reflexivity].
+        assert (In x (filter (case_old g) cs)) by (apply filter_In; split; assumption). rewrite Eo in H. destruct H. }
+      rewrite Hf. destruct (length rn); reflexivity.
+  Qed.
+
+  Lemma vchoices_hist g : forall t, hist_case_t g t = true ->
+    vchoices t g = if case_t (map erase g) t then ROk g else RErr EDupCase.
+  Proof.
+    intro t. induction t as [s ch IH|cid m cs IH|c d ch IH] using stree_ind'; intro H; cbn [vchoices hist_case_t] in *.
+    - reflexivity.
+    - rewrite Forall_forall in IH. apply andb_true_iff in H. destruct H as [H H3]. apply andb_true_iff in H. destruct H as [H1 H2].
+      rewrite forallb_forall in H3. destruct g as [|x g'] eqn:Eg.
+      + cbn [map]. rewrite case_t_nil. reflexivity.
+      + rewrite <- Eg in *. rewrite (validate_cases_hist g cs H1 H2). cbn [case_t].
+        destruct (length (filter (sub_has_data (map erase g)) cs) <=? 1)%nat; cbn [andb]; [|reflexivity].
+        apply (fold_vch_spec g cs). intros t Ht. apply (IH t Ht), H3, Ht.
+    - rewrite Forall_forall in IH. rewrite forallb_forall in H. cbn [case_t]. apply (fold_vch_spec g ch).
+      intros t Ht. apply (IH t Ht), H, Ht.
+  Qed.
+
+  (* node loop with old and new nodes *)
+  Fixpoint loop_okh (pre todo : vforest) : bool :=
+    match todo with
+    | [] => true
+    | n :: r => if vn_new n then negb (dup_of vs (pre ++ r) n) && loop_okh (pre ++ [vn_clear_new n]) r
+                else loop_okh (pre ++ [n]) r
+    end.
+
+  Lemma clear_old n : vn_new n = false -> vn_clear_new n = n.
+  Proof. destruct n; cbn. intros ->. reflexivity. Qed.
+
+  Lemma vloop_hist l : forall fuel todo done last,
+    (length todo <= fuel)%nat ->
+    (forall x, In x done -> vn_dflt x = false) ->
+    (forall x, In x todo -> vn_dflt x = false) ->
+    vloop vs l fuel done todo last =
+    if loop_okh (rev done) todo then ROk (rev done ++ map vn_clear_new todo) else RErr EDup.
+  Proof.
+    induction fuel as [|k IH]; intros todo done last Hlen Hd Ht.
+    - destruct todo; [|cbn in Hlen; lia]. cbn [vloop loop_okh map]. rewrite app_nil_r. reflexivity.
+    - destruct todo as [|n r]; [cbn [vloop loop_okh map]; rewrite app_nil_r; reflexivity|].
+      pose proof (Ht n (or_introl eq_refl)) as Hn2.
+      assert (Hdr : forall x, In x r -> vn_dflt x = false) by (intros x Hx; apply Ht; right; exact Hx).
+      cbn [vloop loop_okh]. rewrite Hn2. destruct (vn_new n) eqn:Hn1; cbn [orb negb andb].
+      + assert (Hf : existsb (fun x => (vn_sid x =? vn_sid n) && negb (vn_dflt x)) (rev done ++ n :: r) = true).
+        { rewrite existsb_app. cbn [existsb]. rewrite N.eqb_refl, Hn2. cbn. apply orb_true_r. }
+        rewrite Hf. rewrite andb_true_r.
+        rewrite (kill_dflts_id (vn_sid n) done Hd), (kill_dflts_id (vn_sid n) r Hdr).
+        assert (E : (let '(done1, r1, gone) :=
+                       if has_default vs (vn_sid n) && negb (opt_is last (vn_sid n)) then (done, r, false) else (done, r, false) in
+                     if gone then vloop vs l k done1 r1 (if has_default vs (vn_sid n) && negb (opt_is last (vn_sid n)) then Some (vn_sid n) else last)
+                     else if dup_of vs (rev done1 ++ r1) n then RErr EDup
+                     else vloop vs l k (vn_clear_new n :: done1) r1 (if has_default vs (vn_sid n) && negb (opt_is last (vn_sid n)) then Some (vn_sid n) else last)) =
+                    if negb (dup_of vs (rev done ++ r) n) && loop_okh (rev done ++ [vn_clear_new n]) r
+                    then ROk (rev done ++ map vn_clear_new (n :: r)) else RErr EDup).
+        { destruct (has_default vs (vn_sid n) && negb (opt_is last (vn_sid n)));
+            (destruct (dup_of vs (rev done ++ r) n); cbn [negb andb]; [reflexivity|]);
+            (rewrite IH; [cbn [rev map]; rewrite <- app_assoc; reflexivity|cbn in Hlen; lia| |exact Hdr]);
+            (intros x [<-|Hx]; [rewrite vn_dflt_clear; exact Hn2|apply Hd, Hx]). }
+        exact E.
+      + rewrite IH; [|cbn in Hlen; lia|intros x [<-|Hx]; [exact Hn2|apply Hd, Hx]|exact Hdr].
+        cbn [rev map]. rewrite <- app_assoc. cbn [app]. rewrite (clear_old n Hn1). reflexivity.
+  Qed.
+
+  Definition Rnew (a b : vnode) : bool := negb ((vn_new a || vn_new b) && conflict (erase a) (erase b)).
+
+  Lemma loop_okh_iff : forall todo pre,
+    loop_okh pre todo = true <->
+    (forall n p, In n todo -> In p pre -> vn_new n = true -> conflict (erase n) (erase p) = false) /\
+    pairwise Rnew todo = true.
+  Proof.
+    induction todo as [|n r IH]; intro pre; cbn [loop_okh pairwise].
+    - split; [intros _; split; [intros n p []|reflexivity]|reflexivity].
+    - destruct (vn_new n) eqn:Hn.
+      + rewrite andb_true_iff, negb_true_iff, dup_of_erase, IH, andb_true_iff, forallb_forall. split.
+        * intros [H1 [H2 H3]]. split; [|split; [|exact H3]].
+          -- intros n' p [<-|Hn'] Hp Hnew.
+             ++ destruct (conflict (erase n) (erase p)) eqn:E; [|reflexivity].
+                assert (Hx : existsb (conflict (erase n)) (map erase (pre ++ r)) = true).
+                { apply existsb_exists. exists (erase p). split; [apply in_map, in_or_app; left; exact Hp|exact E]. }
+                congruence.
+             ++ apply H2; [exact Hn'|apply in_or_app; left; exact Hp|exact Hnew].
+          -- intros b Hb. unfold Rnew. rewrite Hn. cbn [orb andb]. apply negb_true_iff.
+             destruct (conflict (erase n) (erase b)) eqn:E; [|reflexivity].
+             assert (Hy : existsb (conflict (erase n)) (map erase (pre ++ r)) = true).
+             { apply existsb_exists. exists (erase b). split; [apply in_map, in_or_app; right; exact Hb|exact E]. }
+             congruence.
+        * intros [H1 [H2 H3]]. split; [|split; [|exact H3]].
+          -- destruct (existsb (conflict (erase n)) (map erase (pre ++ r))) eqn:E; [|reflexivity].
+             apply existsb_exists in E. destruct E as [y [Hy E]]. apply in_map_iff in Hy. destruct Hy as [x [<- Hx]].
+             apply in_app_or in Hx. destruct Hx as [Hx|Hx].
+             ++ rewrite (H1 n x (or_introl eq_refl) Hx Hn) in E. discriminate.
+             ++ specialize (H2 x Hx). unfold Rnew in H2. rewrite Hn in H2. cbn [orb andb] in H2. apply negb_true_iff in H2. congruence.
+          -- intros n' p Hn' Hp Hnew. apply in_app_or in Hp. destruct Hp as [Hp|[<-|[]]].
+             ++ apply H1; [right; exact Hn'|exact Hp|exact Hnew].
+             ++ rewrite erase_clear, conflict_sym. specialize (H2 n' Hn'). unfold Rnew in H2. rewrite Hn in H2.
+                cbn [orb andb] in H2. apply negb_true_iff in H2. exact H2.
+      + rewrite IH, andb_true_iff, forallb_forall. split.
+        * intros [H2 H3]. split; [|split; [|exact H3]].
+          -- intros n' p [<-|Hn'] Hp Hnew; [congruence|]. apply H2; [exact Hn'|apply in_or_app; left; exact Hp|exact Hnew].
+          -- intros b Hb. unfold Rnew. rewrite Hn. cbn [orb]. destruct (vn_new b) eqn:Hb2; [|reflexivity]. cbn [andb].
+             apply negb_true_iff. rewrite conflict_sym. apply H2; [exact Hb|apply in_or_app; right; left; reflexivity|exact Hb2].
+        * intros [H1 [H2 H3]]. split; [|exact H3].
+          intros n' p Hn' Hp Hnew. apply in_app_or in Hp. destruct Hp as [Hp|[<-|[]]].
+          -- apply H1; [right; exact Hn'|exact Hp|exact Hnew].
+          -- specialize (H2 n' Hn'). unfold Rnew in H2. rewrite Hn, Hnew in H2. cbn [orb andb] in H2.
+             apply negb_true_iff in H2. rewrite conflict_sym. exact H2.
+  Qed.
+
+  Lemma vconf_erase a b : vconf vs a b = conflict (erase a) (erase b).
+  Proof. unfold vconf, conflict. rewrite d_sid_erase, same_vinst_erase. reflexivity. Qed.
+
+  Lemma pairwise_map {A B} (h : A -> B) (r : B -> B -> bool) l : pairwise r (map h l) = pairwise (fun a b => r (h a) (h b)) l.
+  Proof.
+    induction l as [|x l IH]; cbn [map pairwise]; [reflexivity|]. rewrite IH. f_equal.
+    clear. induction l as [|y l IH]; cbn [map forallb]; [reflexivity|]. rewrite IH. reflexivity.
+  Qed.
+
+  Lemma loop_okh_dup l g : old_free vs g = true -> loop_okh [] g = dup_ctx l (map erase g).
+  Proof.
+    intro Ho. unfold dup_ctx. rewrite pairwise_map.
+    destruct (loop_okh [] g) eqn:E.
+    - apply loop_okh_iff in E. destruct E as [_ E]. symmetry.
+      pose proof (pairwise_and _ _ _ Ho E) as P. eapply pairwise_impl; [|exact P]. cbn beta. intros a b _ _ H.
+      apply andb_true_iff in H. destruct H as [H1 H2]. unfold Rnew in H2. rewrite vconf_erase in H1.
+      destruct (conflict (erase a) (erase b)); [|reflexivity]. destruct (vn_new a), (vn_new b); cbn in *; discriminate.
+    - destruct (pairwise (fun a b => negb (conflict (erase a) (erase b))) g) eqn:E2; [|reflexivity].
+      assert (H : loop_okh [] g = true).
+      { apply loop_okh_iff. split; [intros n p _ []|]. eapply pairwise_impl; [|exact E2]. cbn beta. intros a b _ _ H.
+        unfold Rnew. apply negb_true_iff in H. rewrite H. rewrite andb_false_r. reflexivity. }
+      congruence.
+  Qed.
+
+  Definition nodflt_top (g : vforest) : Prop := forall x, In x g -> vn_dflt x = false.
+
+  Lemma vlevel_hist l g : nodflt_top g -> hist_level vs l g = true ->
+    vlevel vs l g =
+    if forallb (case_t (map erase g)) l
+    then (if dup_ctx l (map erase g) then ROk (map vn_clear_new g) else RErr EDup)
+    else RErr EDupCase.
+  Proof.
+    intros Hd Hh. unfold hist_level in Hh. apply andb_true_iff in Hh. destruct Hh as [Ho Hc]. rewrite forallb_forall in Hc.
+    unfold vlevel.
+    pose proof (fold_vch_spec g l (fun t Ht => vchoices_hist g t (Hc t Ht))) as Hf. unfold fold_vch in Hf. rewrite Hf.
+    destruct (forallb (case_t (map erase g)) l); [|reflexivity].
+    rewrite (vloop_hist l (length g) g [] None (le_n _)); [|intros x []|exact Hd].
+    cbn [rev app]. rewrite (loop_okh_dup l g Ho). reflexivity.
+  Qed.
+
+  Fixpoint vclr (n : vnode) : vnode :=
+    match n with VN s v d _ m ch => VN s v d false m (map vclr ch) end.
+
+  Lemma vnode_ind' (P : vnode -> Prop) :
+    (forall s v d w m ch, Forall P ch -> P (VN s v d w m ch)) -> forall n, P n.
+  Proof.
+    intro H. fix IH 1. intros [s v d w m ch]. apply H. induction ch as [|x r IHr]; constructor; [apply IH|exact IHr].
+  Qed.
+
+  Lemma erase_vclr n : erase (vclr n) = erase n.
+  Proof.
+    induction n as [s v d w m ch IH] using vnode_ind'. cbn [vclr erase]. f_equal. rewrite map_map.
+    apply map_ext_in. intros x Hx. rewrite Forall_forall in IH. apply IH, Hx.
+  Qed.
+
+  Lemma map_erase_vclr g : map erase (map vclr g) = map erase g.
+  Proof. rewrite map_map. apply map_ext. apply erase_vclr. Qed.
+
+  Lemma rmap_dich_v (h : vnode -> rs vnode) (A : vnode -> Prop) (Bad : vnode -> verr -> Prop) (g : vforest) :
+    (forall x, In x g -> (h (vn_clear_new x) = ROk (vclr x) /\ A x) \/ (exists e, h (vn_clear_new x) = RErr e /\ Bad x e)) ->
+    (rmap h (map vn_clear_new g) = ROk (map vclr g) /\ forall x, In x g -> A x) \/
+    (exists e, rmap h (map vn_clear_new g) = RErr e /\ exists x, In x g /\ Bad x e).
+  Proof.
+    induction g as [|x g IH]; intro H; cbn [map rmap].
+    - left. split; [reflexivity|intros x []].
+    - destruct (H x (or_introl eq_refl)) as [[E HA]|[e [E HB]]]; rewrite E.
+      + destruct (IH (fun y Hy => H y (or_intror Hy))) as [[E2 HA2]|[e [E2 [y [Hy HB]]]]]; rewrite E2.
+        * left. split; [reflexivity|]. intros y [<-|Hy]; [exact HA|apply HA2, Hy].
+        * right. exists e. split; [reflexivity|]. exists y. split; [right; exact Hy|exact HB].
+      + right. exists e. split; [reflexivity|]. exists x. split; [left; reflexivity|exact HB].
+  Qed.
+
+  Lemma NewOK_iff l g e :
+    NewOK l (map erase g) e <->
+    ((e = EDupCase -> case_ctx l (map erase g) = true) /\ (e = EDup -> dup_ctx l (map erase g) = true)) /\
+    forall x, In x g -> NewOK (st_children l (vn_sid x)) (map erase (vn_ch x)) e.
+  Proof.
+    unfold NewOK. rewrite !all_ctx_iff. split.
+    - intros [H1 H2]. split; [split; intro E; [apply (H1 E)|apply (H2 E)]|].
+      intros x Hx. rewrite <- d_sid_erase, <- d_ch_erase. split; intro E; [apply (H1 E)|apply (H2 E)]; apply in_map, Hx.
+    - intros [[H1 H2] H3]. split; intro E; (split; [auto|]); intros n Hn; apply in_map_iff in Hn; destruct Hn as [x [<- Hx]];
+        rewrite d_sid_erase, d_ch_erase; apply (H3 x Hx), E.
+  Qed.
+
+  Lemma vnew_hist : forall fuel l g,
+    hist_level vs l g = true -> forallb (hist_node vs l) g = true -> (vfsize g < fuel)%nat ->
+    (vnew vs fuel l g = ROk (map vclr g) /\ forall e, NewOK l (map erase g) e) \/
+    (exists e, vnew vs fuel l g = RErr e /\ ~ NewOK l (map erase g) e).
+  Proof.
+    induction fuel as [|k IH]; intros l g Hl Hn Hsz; [lia|].
+    cbn [vnew]. rewrite forallb_forall in Hn.
+    assert (Hd : nodflt_top g).
+    { intros x Hx. specialize (Hn x Hx). destruct x as [s v d w m ch]. cbn [hist_node vn_dflt] in *.
+      apply andb_true_iff in Hn. destruct Hn as [Hn _]. apply andb_true_iff in Hn. destruct Hn as [Hn _].
+      apply negb_true_iff in Hn. exact Hn. }
+    rewrite (vlevel_hist l g Hd Hl).
+    destruct (forallb (case_t (map erase g)) l) eqn:Ec.
+    2:{ right. exists EDupCase. split; [reflexivity|]. intro H. apply NewOK_iff in H. destruct H as [[H _] _].
+        specialize (H eq_refl). unfold case_ctx in H. congruence. }
+    destruct (dup_ctx l (map erase g)) eqn:Edup.
+    2:{ right. exists EDup. split; [reflexivity|]. intro H. apply NewOK_iff in H. destruct H as [[_ H] _].
+        specialize (H eq_refl). congruence. }
+    pose (h := fun n : vnode => match n with
+                 | VN s v d w m ch => match vnew vs k (st_children l s) ch with
+                                      | RErr e => RErr e
+                                      | ROk ch' => ROk (VN s v d w m ch')
+                                      end
+                 end).
+    change (rmap _ (map vn_clear_new g)) with (rmap h (map vn_clear_new g)).
+    destruct (rmap_dich_v h (fun x => forall e, NewOK (st_children l (vn_sid x)) (map erase (vn_ch x)) e)
+                (fun x e => ~ NewOK (st_children l (vn_sid x)) (map erase (vn_ch x)) e) g) as [[E HA]|[e [E [x [Hx HB]]]]].
+    - intros x Hx. pose proof (Hn x Hx) as Hx2. pose proof (vfsize_in x g Hx) as Hv.
+      destruct x as [s v d w m ch]. cbn [hist_node] in Hx2. apply andb_true_iff in Hx2. destruct Hx2 as [Hx2 Hx4].
+      apply andb_true_iff in Hx2. destruct Hx2 as [_ Hx3].
+      assert (Hs : (vfsize ch < k)%nat) by (cbn [vsize] in Hv; unfold vfsize; lia).
+      cbn [vn_clear_new h vn_sid vn_ch vclr].
+      destruct (IH (st_children l s) ch Hx3 Hx4 Hs) as [[E HA]|[e [E HB]]]; rewrite E.
+      + left. split; [reflexivity|exact HA].
+      + right. exists e. split; [reflexivity|exact HB].
+    - left. split; [exact E|]. intro e. apply NewOK_iff. split; [split; intros _; [exact Ec|exact Edup]|].
+      intros x Hx. apply (HA x Hx).
+    - right. exists e. split; [exact E|]. intro H. apply NewOK_iff in H. apply HB, (proj2 H x Hx).
+  Qed.
+
+  (* ----------------------------------------------------------------------------------------- *)
+  (* no duplicate instance (as lyd_validate_duplicates sees it) = the three RFC rules             *)
+  (* ----------------------------------------------------------------------------------------- *)
 
   Lemma find_filter_hd {A} (p : A -> bool) l : find p l = hd_error (filter p l).
   Proof. induction l as [|x l IH]; cbn [find filter]; [reflexivity|]. destruct (p x); [reflexivity|exact IH]. Qed.
@@ -1745,6 +2239,22 @@ Section Proofs.
     - intro e. cbn beta. split; [intros [_ H]; exact H|]. intro H. split; [|exact H].
       split; intros ->; exact H.
   Qed.
+  (* lyd_validate_module on a tree with a validated (un-flagged) part and arbitrary flagged nodes *)
+  Theorem history_spec g : hist_ok vs g = true ->
+    rfc_types ty vs (map erase g) = true -> rfc_keys vs (map erase g) = true ->
+    vspec (impl_validate vs g) (ClassOK (map erase g)).
+  Proof.
+    intros Hh Hty Hkeys. destruct wf_parts as [Hw [Hk [Hu Hwu]]]. unfold hist_ok in Hh. apply andb_true_iff in Hh.
+    destruct Hh as [Hl Hn]. unfold impl_validate.
+    destruct (vnew_hist (S (vfsize g)) (vs_tree vs) g Hl Hn (Nat.lt_succ_diag_r _)) as [[E Ha]|[e0 [E Ha]]]; rewrite E.
+    - rewrite map_erase_vclr.
+      pose proof (proj1 (Ha EDupCase) eq_refl) as Hcase. pose proof (proj2 (Ha EDup) eq_refl) as Hdup.
+      apply (dup_rules Hk _ _ Hkeys) in Hdup. destruct Hdup as [S1 [S2 S3]].
+      apply (final_classes _ Hcase S1). intros e He. destruct e; try contradiction; cbn [ClassOK]; auto.
+    - apply vspec_err. intro Hc. apply Ha. split; intros ->; cbn [ClassOK] in Hc.
+      + exact Hc.
+      + apply (dup_rules Hk _ _ Hkeys). exact Hc.
+  Qed.
 End Proofs.
 
 (* ------------------------------------------------------------------------------------------- *)
@@ -1795,6 +2305,32 @@ Proof.
   intros Hw Hf He. unfold fresh in Hf. apply andb_true_iff in Hf. destruct Hf as [Hd _].
   destruct (parse_validate_spec ty vs Hw f Hd) as [_ H]. specialize (H e He).
   destruct (class_ok ty vs f e) eqn:E; [|reflexivity]. exfalso. apply H, class_ok_iff, E.
+Qed.
+
+(* HISTORIES: the un-flagged part of the tree was validated before (hist_ok), nodes flagged new are arbitrary: the
+   validation of the tree is the validation of its content *)
+Theorem history_iff_rfc ty vs g :
+  vschema_ok vs = true -> hist_ok vs g = true -> no_empty_np vs (map erase g) = true ->
+  rfc_types ty vs (map erase g) = true -> rfc_keys vs (map erase g) = true ->
+  (impl_validate vs g = VOk <-> rfc_valid ty vs (map erase g) = true).
+Proof.
+  intros Hw Hh He Hty Hk. unfold rfc_valid. rewrite (prune_id vs _ He), rules_hold_classes.
+  destruct (history_spec ty vs Hw g Hh Hty Hk) as [H _]. rewrite H.
+  split; intros Ha e; apply class_ok_iff, Ha.
+Qed.
+
+Theorem history_error_sound ty vs g e :
+  vschema_ok vs = true -> hist_ok vs g = true ->
+  rfc_types ty vs (map erase g) = true -> rfc_keys vs (map erase g) = true ->
+  impl_validate vs g = VErr e -> class_ok ty vs (map erase g) e = false.
+Proof.
+  intros Hw Hh Hty Hk He. destruct (history_spec ty vs Hw g Hh Hty Hk) as [_ H]. specialize (H e He).
+  destruct (class_ok ty vs (map erase g) e) eqn:E; [|reflexivity]. exfalso. apply H, class_ok_iff, E.
+Qed.
+
+Theorem multi_verdict vs g : impl_validate_multi vs g = [] <-> impl_validate vs g = VOk.
+Proof.
+  rewrite <- (multi_first_error vs g). destruct (impl_validate_multi vs g); cbn [first_err]; split; intro H; try reflexivity; discriminate.
 Qed.
 
 Theorem error_class ty vs f e :
@@ -2305,6 +2841,56 @@ Lemma ex_facts :
   impl_parse_validate ex_schema ty_any ex_dup_key = VErr EDup.
 Proof. vm_compute. repeat split; reflexivity. Qed.
 
+(* histories on w1_schema (list l {key k; leaf a}): entry 1 validated before (un-flagged), then
+   - a second leaf a added to it (flagged new): rejected as a duplicate although the other instance is old,
+   - a second entry with the same key added (flagged new): rejected,
+   - a new entry with another key: accepted *)
+Definition h1_dup_leaf : vforest :=
+  [VN 0 [] false false [] [VN 1 [49] false false [] []; VN 2 [65] false false [] []; VN 2 [66] false true [] []]].
+Definition h1_dup_key : vforest :=
+  [VN 0 [] false false [] [VN 1 [49] false false [] []];
+   VN 0 [] false true [] [VN 1 [49] false true [] []]].
+Definition h1_fresh_entry : vforest :=
+  [VN 0 [] false false [] [VN 1 [49] false false [] []];
+   VN 0 [] false true [] [VN 1 [50] false true [] []]].
+Lemma h1_facts :
+  hist_ok w1_schema h1_dup_leaf = true /\ impl_validate w1_schema h1_dup_leaf = VErr EDup /\
+  hist_ok w1_schema h1_dup_key = true /\ impl_validate w1_schema h1_dup_key = VErr EDup /\
+  hist_ok w1_schema h1_fresh_entry = true /\ impl_validate w1_schema h1_fresh_entry = VOk /\
+  hist_ok w1_schema w1_tree = false.
+Proof. vm_compute. repeat split; reflexivity. Qed.
+
+(* a case that STARTS with a default leaf and a non-presence container left implicit and is selected by a later sibling:
+     choice c { case a { leaf d (0) default; container np (1) { leaf x (2) default }; leaf e (3); leaf m (4) mandatory;
+                         leaf-list ll (5) max-elements 1 } case b { leaf be (6) } }
+   the case's own constraints are enforced *)
+Definition ld_schema : vschema :=
+  mk_vschema [(0, si KLeaf None [] [[49]] false 0 None); (1, si (KCont false) None [] [] false 0 None);
+              (2, si KLeaf (Some 1) [] [[120]] false 0 None); (3, si KLeaf None [] [] false 0 None);
+              (4, si KLeaf None [] [] true 0 None); (5, si KLeafList None [] [] false 0 (Some 1));
+              (6, si KLeaf None [] [] false 0 None)]
+             [TChoice 0 false [TCase 0 false [TNode 0 []; TNode 1 [TNode 2 []]; TNode 3 []; TNode 4 []; TNode 5 []];
+                               TCase 1 false [TNode 6 []]]] [].
+Lemma ld_facts :
+  vschema_ok ld_schema = true /\
+  impl_parse_validate ld_schema ty_any [DN 3 [101] false [] []] = VErr ENoMand /\
+  impl_parse_validate ld_schema ty_any [DN 3 [101] false [] []; DN 4 [109] false [] []] = VOk /\
+  impl_parse_validate ld_schema ty_any [DN 4 [109] false [] []; DN 5 [97] false [] []; DN 5 [98] false [] []] = VErr ENoMax /\
+  impl_parse_validate ld_schema ty_any [DN 6 [98] false [] []] = VOk.
+Proof. vm_compute. repeat split; reflexivity. Qed.
+
+(* multi-error run of an instance with three violations (ex_schema: no mandatory leaf, two cases, too many entries):
+   all are logged, the first one is the error of the plain run *)
+Definition ex_three : forest :=
+  [DN 0 [] false [] [DN 2 [120] false [] []; DN 3 [121] false [] []];
+   DN 4 [] false [] [DN 5 [49] false [] []; DN 6 [97] false [] []]; DN 4 [] false [] [DN 5 [50] false [] []; DN 6 [98] false [] []];
+   DN 4 [] false [] [DN 5 [51] false [] []; DN 6 [99] false [] []]].
+Lemma ex_multi :
+  impl_validate_multi ex_schema (map mark_new ex_three) = [EDupCase; ENoMax; ENoMand] /\
+  impl_validate ex_schema (map mark_new ex_three) = VErr EDupCase /\
+  impl_validate_multi ex_schema (map mark_new ex_tree) = [].
+Proof. vm_compute. repeat split; reflexivity. Qed.
+
 (* the statement for trees with ARBITRARY flags (values of their types, list entries with their keys) *)
 Definition validate_iff_rfc_flags_statement : Prop :=
   forall ty vs (t : vforest),
@@ -2360,3 +2946,91 @@ Lemma error_class_report ty vs f e :
   class_ok ty vs f e = false -> (forall e', e' <> e -> class_ok ty vs f e' = true) ->
   impl_parse_validate vs ty f = VErr e /\ report e = (7, 9, apptag e).
 Proof. intros. split; [apply error_class; assumption|reflexivity]. Qed.
+
+(* ------------------------------------------------------------------------------------------- *)
+(* identityref: derived from ALL bases                                                            *)
+(* ------------------------------------------------------------------------------------------- *)
+(* RFC 7950 7.18.2 / 9.10.2: d is derived from b if d has b as a base, or a base of d is derived from b (transitive,
+   irreflexive closure of the base statements); here with the chain of edges used *)
+Inductive IdPath (E : idedges) : N -> N -> list (N * N) -> Prop :=
+| IdP1 b d : In (b, d) E -> IdPath E b d [(b, d)]
+| IdPS b m d p : In (b, m) E -> IdPath E m d p -> IdPath E b d ((b, m) :: p).
+Definition DerivedFrom (E : idedges) (b d : N) : Prop := exists p, IdPath E b d p.
+(* the compiler rejects an identity that is (transitively) its own base *)
+Definition IdAcyclic (E : idedges) : Prop := forall x p, ~ IdPath E x x p.
+
+Lemma id_derived_in E b d : In d (id_derived E b) <-> In (b, d) E.
+Proof.
+  unfold id_derived. rewrite in_map_iff. split.
+  - intros [[b' d'] [Hd Hin]]. apply filter_In in Hin. destruct Hin as [Hin Hb]. cbn in *. apply N.eqb_eq in Hb. subst. exact Hin.
+  - intro H. exists (b, d). split; [reflexivity|]. apply filter_In. split; [exact H|]. cbn. apply N.eqb_refl.
+Qed.
+
+Lemma isderived_sound E : forall fuel b d, isderived E fuel b d = true -> DerivedFrom E b d.
+Proof.
+  induction fuel as [|k IH]; intros b d H; [discriminate|]. cbn [isderived] in H.
+  apply existsb_exists in H. destruct H as [m [Hm H]]. apply id_derived_in in Hm. apply orb_true_iff in H.
+  destruct H as [H|H].
+  - apply N.eqb_eq in H. subst m. exists [(b, d)]. constructor. exact Hm.
+  - destruct (IH m d H) as [p Hp]. exists ((b, m) :: p). constructor; assumption.
+Qed.
+
+Lemma isderived_path E : forall p b d, IdPath E b d p -> forall fuel, (length p <= fuel)%nat -> isderived E fuel b d = true.
+Proof.
+  intros p b d H. induction H as [b d Hin|b m d p Hin Hp IH]; intros fuel Hl; (destruct fuel as [|k]; [cbn in Hl; lia|]);
+    cbn [isderived]; apply existsb_exists.
+  - exists d. split; [apply id_derived_in, Hin|]. rewrite N.eqb_refl. reflexivity.
+  - exists m. split; [apply id_derived_in, Hin|]. rewrite IH; [apply orb_true_r|]. cbn in Hl. lia.
+Qed.
+
+Lemma idpath_incl E b d p : IdPath E b d p -> incl p E.
+Proof.
+  intro H. induction H as [b d Hin|b m d p Hin Hp IH]; intros e He.
+  - destruct He as [<-|[]]. exact Hin.
+  - destruct He as [<-|He]; [exact Hin|apply IH, He].
+Qed.
+
+(* a path that runs through the edge (x, y): its part before that edge leads to x *)
+Lemma idpath_prefix E : forall l2 m d x y l3, IdPath E m d (l2 ++ (x, y) :: l3) -> (l2 = [] /\ m = x) \/ IdPath E m x l2.
+Proof.
+  induction l2 as [|e l2 IH]; intros m d x y l3 H.
+  - left. split; [reflexivity|]. cbn [app] in H. inversion H; subst; reflexivity.
+  - right. cbn [app] in H. inversion H as [b0 d0 Hin E1|b0 m0 d0 p0 Hin Hp E1]; subst.
+    + destruct l2; discriminate.
+    + destruct (IH _ _ _ _ _ Hp) as [[-> ->]|Hq].
+      * constructor. exact Hin.
+      * constructor; assumption.
+Qed.
+
+Lemma idpath_nodup E : IdAcyclic E -> forall b d p, IdPath E b d p -> NoDup p.
+Proof.
+  intros Hac b d p H. induction H as [b d Hin|b m d p Hin Hp IH].
+  - constructor; [intros []|constructor].
+  - constructor; [|exact IH]. intro Hi. apply in_split in Hi. destruct Hi as [l2 [l3 ->]].
+    destruct (idpath_prefix E l2 m d b m l3 Hp) as [[-> ->]|Hq].
+    + apply (Hac b [(b, b)]). constructor. exact Hin.
+    + apply (Hac b ((b, m) :: l2)). constructor; assumption.
+Qed.
+
+Theorem isderived_iff E b d : IdAcyclic E -> (isderived E (length E) b d = true <-> DerivedFrom E b d).
+Proof.
+  intro Hac. split; [apply isderived_sound|]. intros [p Hp]. apply (isderived_path E p b d Hp).
+  apply NoDup_incl_length; [apply (idpath_nodup E Hac b d p Hp)|apply (idpath_incl E b d p Hp)].
+Qed.
+
+(* identityref_check_base accepts exactly the identities derived from ALL the bases of the type *)
+Theorem idref_check_iff E bases ident : IdAcyclic E ->
+  (idref_check E bases ident = true <-> forall b, In b bases -> DerivedFrom E b ident).
+Proof.
+  intro Hac. unfold idref_check. rewrite forallb_forall. split; intros H b Hb; apply (isderived_iff E b ident Hac), H, Hb.
+Qed.
+
+(* the edges of module mi / m1 of the type family of the oracle (A=0 B=1 X=2 C=3 D=4 E=5 F=6 AX=7 G=8 H=9 K=10 L=11):
+   D is derived from both A and B, C only from A *)
+Definition id_example : idedges :=
+  [(0, 3); (0, 4); (1, 4); (4, 5); (1, 6); (0, 7); (2, 7); (3, 8); (6, 8); (5, 9); (8, 10); (2, 10)].
+Lemma id_example_facts :
+  idref_check id_example [0; 1] 4 = true /\ idref_check id_example [0; 1] 3 = false /\
+  idref_check id_example [0; 1] 9 = true /\ idref_check id_example [0; 1; 2] 10 = true /\
+  idref_check id_example [0; 1; 2] 8 = false /\ idref_check id_example [0] 0 = false.
+Proof. vm_compute. repeat split; reflexivity. Qed.
